@@ -21,3 +21,16 @@ open MdIt MdIt.C13D MdIt.Pipeline
 #print axioms spliceWith_paragraph
 #print axioms parseLink_use
 #print axioms exCfg_chainOK
+
+-- follow-up: the tree `parseDoc` returns, rendering, definitions leave no node
+#check @postPasses_link
+#check @postPasses_text
+#check @doc_resolves_in_tree
+#check @resolved_use_renders
+#check @doc_definitions_no_node
+
+#print axioms postPasses_link
+#print axioms postPasses_text
+#print axioms doc_resolves_in_tree
+#print axioms resolved_use_renders
+#print axioms doc_definitions_no_node
